@@ -134,7 +134,7 @@ def tlc(module, cfg=None, workers=NCPU, env=None, timeout=1800, extra=None, heap
     """Run TLC; returns dict(rc, out, states, distinct, depth, coverage)."""
     meta = tempfile.mkdtemp(prefix="tlc-", dir=os.environ.get("VERIF_TMP", "/tmp"))
     e = dict(os.environ); e.update(env or {})
-    cmd = ["java", "-Xmx" + heap, "-XX:+UseParallelGC", "-cp", TLC_JAR + ":/opt/veriftools/tla/CommunityModules-deps.jar", "tlc2.TLC",
+    cmd = ["java", "-Xmx" + heap, "-Xss512m", "-XX:+UseParallelGC", "-cp", TLC_JAR + ":/opt/veriftools/tla/CommunityModules-deps.jar", "tlc2.TLC",
            "-noGenerateSpecTE", "-workers", str(workers), "-metadir", meta, "-config", cfg or (module + ".cfg")]
     if coverage: cmd += ["-coverage", "1"]
     cmd += (extra or []) + [module + ".tla"]
